@@ -19,7 +19,7 @@ import (
 	"verif/internal/model"
 )
 
-const rule = "cases: option maps whose host is drawn from a grammar {IPv4 literal, IPv6 literal in every compression form, embedded IPv4, v4-mapped, with zone, with port, bracketed, leading zeros, surrounding whitespace, hostname, empty, 255 bytes, arbitrary bytes}, port from {canonical decimal, leading zeros, +/- sign, spaces, 0, 65535, 65536, 2^63, 2^64, hex, empty}, caps ending / not ending in 6, keys that are prefixes or extensions of the well-known keys (hos, host1, s1, ii, Host), s / i values of 31/32/33 and 15/16/17 bytes; each map through NewRouterAddress, through model-encode -> ReadRouterAddress, and through an encoding whose pairs are not in key order (reversed, rotated). For half of the constructed addresses the options are then replaced through the exported field and every accessor is checked again against the options in effect. Oracle: own IP-literal recogniser (cross-checked with net/netip; a disagreement between the two oracles makes the case inconclusive and is counted) - Host() succeeds <=> literal and returns that address; HasValidHost <=> Host() ok; IPVersion = family when the host is valid; Port() succeeds <=> optional sign + decimal digits with value 1..65535 and returns the canonical decimal; HasValidPort <=> Port() ok; GetOption(k) = lookup of exactly k; StaticKey / InitializationVector ok <=> 32 / 16 bytes. Non-trivial: host or port option present; distinct by (host, port, caps, path)."
+const rule = "cases: option maps whose host is drawn from a grammar {IPv4 literal, IPv6 literal in every compression form, embedded IPv4, v4-mapped, with zone, with port, bracketed, leading zeros, surrounding whitespace, hostname, empty, 255 bytes, arbitrary bytes}, port from {canonical decimal, leading zeros, +/- sign, spaces, 0, 65535, 65536, 2^63, 2^64, hex, empty}, caps ending / not ending in 6, keys that are prefixes or extensions of the well-known keys (hos, host1, s1, ii, Host), s / i values of 31/32/33 and 15/16/17 raw bytes and their I2P-base64 text forms (padded, unpadded, alphabet strings of neighbouring lengths); each map through NewRouterAddress, through model-encode -> ReadRouterAddress, and through an encoding whose pairs are not in key order (reversed, rotated). For half of the constructed addresses the options are then replaced through the exported field and every accessor is checked again against the options in effect. Oracle: own IP-literal recogniser (cross-checked with net/netip; a disagreement between the two oracles makes the case inconclusive and is counted) - Host() succeeds <=> literal and returns that address; HasValidHost <=> Host() ok; IPVersion = family when the host is valid; Port() succeeds <=> optional sign + decimal digits with value 1..65535 and returns the canonical decimal; HasValidPort <=> Port() ok; GetOption(k) = lookup of exactly k; StaticKey / InitializationVector ok <=> 32 / 16 bytes. Non-trivial: host or port option present; distinct by (host, port, caps, path)."
 
 func TestMain(m *testing.M) { ev.Main(m, "C17", rule) }
 
@@ -471,11 +471,36 @@ func genCase(t *rapid.T) Case {
 			add(k, rapid.SampledFrom([]string{"1.2.3.4", "80", "x", ""}).Draw(t, "extraval"))
 		}
 	}
+	// s and i: raw bytes of the right and of neighbouring lengths, and the I2P-base64
+	// text forms (padded, unpadded, alphabet strings of 22..25 / 43..45 characters)
+	textForm := func(label string, raw []int, lens []int) string {
+		b := model.Fill(rapid.SampledFrom(raw).Draw(t, label+"raw"), rapid.Uint64Range(1, 1<<16).Draw(t, label+"seed"))
+		txt := model.Base64(b)
+		switch rapid.IntRange(0, 2).Draw(t, label+"form") {
+		case 1:
+			txt = strings.TrimRight(txt, "=")
+		case 2:
+			n := rapid.SampledFrom(lens).Draw(t, label+"len")
+			for len(txt) < n {
+				txt += txt
+			}
+			txt = strings.ReplaceAll(txt, "=", "A")[:n]
+		}
+		return txt
+	}
 	if rapid.Bool().Draw(t, "hass") {
-		add("s", string(model.Fill(rapid.SampledFrom([]int{31, 32, 33, 0, 44}).Draw(t, "slen"), 7)))
+		if rapid.IntRange(0, 2).Draw(t, "stext") == 0 {
+			add("s", textForm("s", []int{31, 32, 33}, []int{32, 43, 44, 45}))
+		} else {
+			add("s", string(model.Fill(rapid.SampledFrom([]int{31, 32, 33, 0, 44}).Draw(t, "slen"), 7)))
+		}
 	}
 	if rapid.Bool().Draw(t, "hasi") {
-		add("i", string(model.Fill(rapid.SampledFrom([]int{15, 16, 17, 0, 24}).Draw(t, "ilen"), 8)))
+		if rapid.IntRange(0, 2).Draw(t, "itext") == 0 {
+			add("i", textForm("i", []int{15, 16, 17, 18}, []int{16, 22, 23, 24, 25}))
+		} else {
+			add("i", string(model.Fill(rapid.SampledFrom([]int{15, 16, 17, 0, 24}).Draw(t, "ilen"), 8)))
+		}
 	}
 	c.Rot = rapid.IntRange(0, 6).Draw(t, "rot")
 	return c
